@@ -364,3 +364,21 @@ func replayTimeout() time.Duration {
 func Link(a, b interface{})       {}
 func CloseWrite(a interface{})    {}
 func WSClosed(a interface{}) bool { return false }
+
+// Stub replaces a function that is NOT part of the repository (standard
+// library or third-party) by a model written in Go; fn must have the same
+// parameters (receiver first). Engine only: natively the real function runs.
+func Stub(name string, fn interface{}) {}
+
+// OnExit registers a handler for process-exit events (log.Fatal, os.Exit) in the
+// engine; the path ends after the handler returns.
+func OnExit(fn func(why string)) {}
+
+// Virtual-time helpers (engine only).
+func SleptCount() int   { return 0 }
+func Slept(i int) int64 { return -1 }
+func Advance(ns int64)  {}
+func FireTimers() int   { return 0 }
+
+// Debug prints its arguments when the engine runs with GOSYM_DEBUG set.
+func Debug(label string, v ...interface{}) {}
